@@ -21,7 +21,9 @@ RULE = ("configurations: one of the 11 entry points x values assigned to options
         "GitDiff/GitMerge > Diff/Merge > WebTool > Web > Global > built-in default; per section the highest-priority directory wins, cwd first "
         "then the order jupyter_config_path() returns; 'Ignore' merged path by path with the same precedence) compared with "
         "nbdime.config.build_config(entrypoint) and, for the entry points with a parser builder, with the namespace the real parser returns "
-        "(before process_diff_flags). Non-trivial: >=2 sections and >=2 directories set the same option, or 'Ignore' set in >=2 sections with "
+        "(before process_diff_flags), and with the parsed text of `nbdime --config` (all 11 entry points resolved one after the other in one process) and "
+        "of the entry point's own `<cmd> --config`; in a fifth of the two-directory cases the working directory IS the user-level or system-level "
+        "configuration directory. Non-trivial: >=2 sections and >=2 directories set the same option, or 'Ignore' set in >=2 sections with "
         "an overlapping path; distinct = canonical JSON of the configuration.")
 ASSUMPTIONS = ["section membership and precedence taken from docs/source/config.rst and the property statement, not from the class hierarchy",
                "workdirectory's built-in default is not compared (both candidates are 'the cwd at start-up')",
@@ -83,6 +85,7 @@ def configuration(draw):
     ep = draw(st.sampled_from(sorted(PRECEDENCE)))
     secs = PRECEDENCE[ep]
     files = []
+    sign = draw(st.booleans())          # ignorables mostly configured with one sign (both signs together are rejected when used)
     for d in range(draw(st.sampled_from([1, 2, 2, 3, 3]))):
         content = {}
         for sec in draw(st.lists(st.sampled_from(secs), min_size=1, max_size=len(secs), unique=True)):
@@ -91,6 +94,8 @@ def configuration(draw):
                 if o == "Ignore":
                     opts[o] = {p: copy.deepcopy(draw(st.sampled_from(IGN_VALUES)))
                                for p in draw(st.lists(st.sampled_from(IGN_PATHS), min_size=1, max_size=3, unique=True))}
+                elif o in IGNORABLES and draw(st.sampled_from([True, True, True, True, False])):
+                    opts[o] = sign
                 else:
                     opts[o] = draw(st.sampled_from(VALUES[o]))
             content[sec] = opts
@@ -100,7 +105,9 @@ def configuration(draw):
     for o in draw(st.lists(st.sampled_from(sorted(set(own) - {"Ignore"})), max_size=2, unique=True)):
         flags[o] = draw(st.sampled_from(VALUES[o]))
     route = draw(st.sampled_from(["script", "script", "dispatcher"])) if ep in DISPATCH else "script"
-    return {"entrypoint": ep, "files": files, "flags": flags, "route": route}
+    # the working directory may itself be one of jupyter's configuration directories (running from ~/.jupyter or <prefix>/etc/jupyter)
+    cwd_is = draw(st.sampled_from([None, None, None, "system", "user"])) if len(files) == 2 else None
+    return {"entrypoint": ep, "files": files, "flags": flags, "route": route, "cwd_is": cwd_is}
 
 
 def strategy(tier):
@@ -201,11 +208,15 @@ def installed(case):
     os.environ["JUPYTER_PLATFORM_DIRS"] = "0"
     jp.SYSTEM_CONFIG_PATH = [dirs[2]]
     jp.ENV_CONFIG_PATH = [] if hasattr(jp, "ENV_CONFIG_PATH") else None
+    if case.get("cwd_is") == "system":
+        dirs[0] = dirs[2]
+    elif case.get("cwd_is") == "user":
+        dirs[0] = dirs[1]
     os.chdir(dirs[0])
     nc._config_cache.clear()
     try:
         # directory priority: cwd first, then the order jupyter_config_path() returns
-        order = [dirs[0]] + [p for p in jp.jupyter_config_path() if p in dirs[1:]]
+        order = [dirs[0]] + [p for p in jp.jupyter_config_path() if p in dirs[1:] and p != dirs[0]]
         for content, path in zip(case["files"], order):
             with open(os.path.join(path, "nbdime_config.json"), "w") as f:
                 json.dump(content, f)
@@ -369,9 +380,94 @@ def run_case(case):
                     want["port"] = SERVER_DEFAULT_PORT
                 want.pop("Ignore", None)
                 compare(out, "parser", want, ns, case, level="parser")
+        # level 3: the `--config` listings - every entry point resolved one after the other in this one process (`nbdime --config`),
+        # and the entry point's own `<cmd> --config`
+        def mixed(ep_):
+            # nbdime rejects ignorables configured with both signs ("must either all be negative or all positive") wherever it uses them
+            vals = {v for o, v in model(dict(case, entrypoint=ep_), with_flags=False).items() if o in IGNORABLES and v is not None}
+            return len(vals) > 1
+        listing = None
+        if any(mixed(e) for e in PRECEDENCE):
+            out.count("config_listing_skipped_(ignorables_configured_with_both_signs)")
+        else:
+            try:
+                listing = parse_listing(run_listing(lambda: __import__("nbdime.__main__").__main__.main_dispatch(["--config"])))
+            except Exception as e:
+                out.fail_exc("config_listing_returns", e)
+        if listing is not None:
+            out.count("config_listings_compared")
+            for ep2 in sorted(PRECEDENCE):
+                compare_listing(out, "config_listing", model(dict(case, entrypoint=ep2), with_flags=False), listing.get(PRECEDENCE[ep2][0]), case, ep2)
+        if parser is not None and case["route"] == "script" and not mixed(ep):
+            try:
+                own = parse_listing(run_listing(lambda: real_parser(ep)[0].parse_args(["--config"])))
+                out.count("own_config_listings_compared")
+                compare_listing(out, "own_config_listing", model(case, with_flags=False), own.get(PRECEDENCE[ep][0]), case, ep)
+            except Exception as e:
+                out.fail_exc("config_listing_returns", e)
+    if case.get("cwd_is"):
+        out.label("cwd_is_also_the_%s_config_directory" % case["cwd_is"])
     reset_state()
     out.ntkey = case
     return out
+
+
+def run_listing(fn):
+    """Text `--config` writes to stderr (it ends with SystemExit)."""
+    buf = io.StringIO()
+    saved = sys.stderr
+    sys.stderr = buf
+    try:
+        fn()
+    except SystemExit:
+        pass
+    finally:
+        sys.stderr = saved
+    return buf.getvalue()
+
+
+def parse_listing(text):
+    """{section header: {option: value | "<unset>" | {path: value}}} from the pretty-printed listing."""
+    res, sec, sub = {}, None, None
+    for line in text.splitlines():
+        if not line.strip() or line.startswith("All available"):
+            continue
+        ind = len(line) - len(line.lstrip(" "))
+        k, _, v = line.strip().partition(":")
+        v = v.strip()
+        if ind == 0:
+            sec = res.setdefault(k, {})
+            sub = None
+        elif ind == 2 and sec is not None:
+            if v == "":
+                sub = sec[k] = {}
+            else:
+                sub = None
+                sec[k] = {} if v == "{}" else "<unset>" if v.startswith("<unset") else json.loads(v)
+        elif ind == 4 and sub is not None:
+            sub[k] = json.loads(v)
+        else:
+            raise RuntimeError("unparsable --config line: %r" % line)
+    return res
+
+
+def compare_listing(out, clause, want, got, case, ep):
+    if got is None:
+        out.fail(clause, "entry_point_missing_from_listing", ep, detail={"entry_point": ep})
+        return
+    for o, w in sorted(want.items()):
+        if o in ("log_level", "workdirectory"):
+            continue
+        if o not in got:
+            out.fail(clause, "option_missing", o, detail={"option": o, "entry_point": ep})
+            return
+        g = got[o]
+        if w is None and o in IGNORABLES:
+            w = "<unset>"
+        if canon(g) != canon(w):
+            out.fail(clause, "wrong_listed_value", "%s%s" % (o, "" if ep == case["entrypoint"] else " (of another entry point listed in the same run)"),
+                     detail={"option": o, "entry_point": ep, "want": w, "got": g, "sections": _setters(case, o)})
+            return
 
 
 def compare(out, clause, want, got, case, level):
